@@ -89,6 +89,11 @@ func genConc(prop string, seed uint64, run int, p concProfile, av avoid) *Case {
 	}
 	if keyed {
 		pf = nil // keyed rows are created through key operations below
+		if kr := NewRng(seed, uint64(run), 87); kr.Chance(0.25) && (!p.replicas || kr.Chance(0.3)) {
+			// keys beyond the first block: block 0 is full of (keyless) rows except for one hole, so
+			// the key operations land in the hole and in block 1 (own PRNG stream)
+			pf = &Prefill{Blocks: 1, KeepFull: []int{0}, Holes: []uint32{uint32(kr.Intn(1 << 14))}}
+		}
 	} else {
 		if blocks > 1 {
 			// make sure every block holds at least one stable row
